@@ -2843,6 +2843,8 @@ func (uconn *UConn) ApplyPreset(p *ClientHelloSpec) error {
 
 	// Check whether NPN extension actually exists
 	var haveNPN bool
+	// Check whether the extended_master_secret extension actually exists
+	var haveEMS bool
 
 	// reGrease, and point things to each other
 	for _, e := range uconn.Extensions {
@@ -2930,12 +2932,19 @@ func (uconn *UConn) ApplyPreset(p *ClientHelloSpec) error {
 			}
 		case *NPNExtension:
 			haveNPN = true
+		case *ExtendedMasterSecretExtension:
+			haveEMS = true
 		}
 	}
 
 	// The default golang behavior in makeClientHello always sets NextProtoNeg if NextProtos is set,
 	// but NextProtos is also used by ALPN and our spec nmay not actually have a NPN extension
 	hello.NextProtoNeg = haveNPN
+
+	// Likewise makeClientHello always claims extended_master_secret; the hello only
+	// offers it if the spec carries the extension (a session that used EMS must not
+	// be offered without it, see loadSession).
+	hello.Ems = haveEMS
 
 	err = uconn.sessionController.syncSessionExts()
 	if err != nil {
